@@ -3,6 +3,7 @@ package verifsim
 import (
 	"context"
 	"fmt"
+	"google.golang.org/protobuf/reflect/protoreflect"
 	"math/rand"
 	"reflect"
 	"time"
@@ -46,6 +47,7 @@ func init() {
 		{"race-group", "group.Execute with every strategy, members as tasks reading their context and returning messages the caller reads", raceGroup, []string{"pkg/group"}},
 		{"race-wrap", "client task and handler task over wrap.ServerToClient (unary with header/trailer options, bidi echo with SetHeader/SetTrailer, status return, client cancel); both sides change their messages after sending", raceWrap, []string{"pkg/wrap"}},
 		{"race-models", "2-4 tasks on the electric, parent and metadata models: every public method incl. Pull consumers reading events", raceModels, []string{"pkg/trait/electricpb Model", "pkg/trait/parentpb Model", "pkg/trait/metadatapb Model", "pkg/resource"}},
+		{"race-servers", "2-3 tasks call Update and Get directly on a discovered model server / memory device (requests built by reflection): whatever a server keeps besides its resources is shared between the callers", raceServers, []string{"every discovered *pb.ModelServer / MemoryDevice with a Get/Update/Pull triple", "pkg/resource"}},
 	} {
 		s := s
 		register(&Scenario{Name: s.name, Prop: "C11", Doc: s.doc, Run: s.run, Real: s.real, Stub: []string{"caller / consumer / canceller tasks (task-local state only)"}})
@@ -791,5 +793,54 @@ func raceWrap(w *World) {
 		h, _ := st.Header()
 		_ = len(h) + len(st.Trailer())
 	})
+	w.Run()
+}
+
+// raceServers: every discovered model server / memory device with a Get/Update/Pull triple, called directly (no
+// wrapper in between, so that the callers really overlap inside the server): 2-3 tasks issue Update and Get requests
+// built by reflection at the same time. State that a server keeps besides its resources (timers, caches, counters)
+// is shared between those callers.
+func raceServers(w *World) {
+	triplesOnce.Do(discoverTriples)
+	t := w.Tape
+	if len(triples) == 0 {
+		return
+	}
+	tr := triples[t.Choose(len(triples))]
+	w.Mix(tr.what + "/" + tr.x)
+	srv := reflect.ValueOf(tr.server())
+	upd, get := srv.MethodByName(string(tr.update.Name())), srv.MethodByName(string(tr.get.Name()))
+	if !upd.IsValid() || !get.IsValid() {
+		return
+	}
+	p := &prng{s: uint64(1 + t.Choose(1<<20))}
+	nt := 2 + t.Choose(2)
+	lists := make([][]raceOp, nt)
+	for i := range lists {
+		for k, n := 0, 1+t.Choose(3); k < n; k++ {
+			if t.Flag(1, 4) {
+				req := newMsg(tr.get.Input())
+				lists[i] = append(lists[i], func(*Task) {
+					res := get.Call([]reflect.Value{reflect.ValueOf(context.Background()), reflect.ValueOf(req)})
+					if m, ok := res[0].Interface().(proto.Message); ok && !res[0].IsNil() {
+						touch(m)
+					}
+				})
+				continue
+			}
+			req := newMsg(tr.update.Input())
+			val := newMsg(tr.resource)
+			fillMessage(val.ProtoReflect(), p, 2)
+			req.ProtoReflect().Set(tr.updField, protoreflect.ValueOfMessage(val.ProtoReflect()))
+			lists[i] = append(lists[i], func(*Task) {
+				res := upd.Call([]reflect.Value{reflect.ValueOf(context.Background()), reflect.ValueOf(req)})
+				if m, ok := res[0].Interface().(proto.Message); ok && !res[0].IsNil() {
+					touch(m)
+				}
+			})
+		}
+	}
+	runOps(w, lists)
+	w.Advance(5 * time.Second) // timer-driven work the updates started runs out
 	w.Run()
 }
